@@ -61,7 +61,7 @@ def run(case, ctx):
 
     rng = rng_for(ctx["seed"], ID, case["i"])
     D, grp = case["D"], case["group"]
-    cfg = mlgen.gen_layer_cfg(rng, D, group=grp)
+    cfg = mlgen.gen_layer_cfg(rng, D, group=grp, equal_channels=(case["i"] % 4 == 1))
     if grp != "B":
         cfg["M"] = 3 if cfg["M"] == 5 else cfg["M"]
     key = {k: cfg[k] for k in ("D", "M", "in_sig", "out_sig", "drop", "bias", "padding", "lhs", "rhs", "torus", "sp")}
